@@ -21,6 +21,27 @@ check("C01", "exploration", "property-based testing (Hypothesis) against an inde
       "Trusted: vp/confmodel.py (reference typing), Hypothesis; resolva 0.0.1 is treated as part of the system under test.",
       "DESIGN.md section 2, C01")
 
+check("C02", "exploration", "property-based testing (Hypothesis) of round-trip relations plus exhaustive product enumeration (thorough)",
+      "Every generated typed Sid is rebuilt from uri, shuffled fields, query, eval(repr()) and copy() and compared on type, string, fields and ==; "
+      "canonical string checked against the reference rendering; pairs checked for == <=> (type, fields). Thorough tier enumerates the full product of reduced per-key value sets.",
+      "Trusted: reference key order / typing in vp/confmodel.py. Query round trip restricted as in the property text.",
+      "DESIGN.md section 2, C02")
+check("C03", "exploration", "property-based testing (Hypothesis) of navigation invariants",
+      "For generated typed (concrete / search / forced-type) and untyped Sids, every key's get_as, parent, the parent chain, '/', keytype, basetype and len are "
+      "checked against prefixes computed from the reference key order.",
+      "Trusted: reference key order in vp/confmodel.py. parent / last == sid only demanded for naturally typed Sids.",
+      "DESIGN.md section 2, C03")
+check("C04", "exploration", "property-based testing (Hypothesis) against an independent decision table for query application",
+      "Generated (Sid, overlay, call form) triples are applied through Sid(s?q), get_with(query=), get_with(**kw) and get_with(key=, value=) and compared with "
+      "a reference decision table (no / one / several fitting types, search or not, '~' and None semantics).",
+      "Trusted: vp/confmodel.py overlay + types_for_fields. Values restricted to URL-safe, non-empty strings.",
+      "DESIGN.md section 2, C04")
+check("C19", "exploration", "property-based testing (Hypothesis) over a template grammar, differential against an independent implementation of the statement",
+      "Generated template configurations are extrapolated by the library and by a reference implementation written from the statement (order included), "
+      "plus direct invariants (no duplicates, explicit entries untouched, only prefixes added, input not mutated); pattern_replacing is compared with sequential replacement.",
+      "Trusted: vp/confmodel.py ref_extrapolate / ref_pattern_replacing; generator emits only well-formed inputs (unique names and templates).",
+      "DESIGN.md section 2, C19")
+
 NOT_APPLICABLE = {
 }
 
